@@ -334,6 +334,20 @@ class ReachingDefs:
 
 
 # --------------------------------------------------------------------------- three-valued guards (E3)
+def _boolish(e: ast.AST) -> bool:
+    """syntactically a truth value: a comparison, a negation, a boolean constant, bool(..), a conjunction / disjunction of such -- or a
+    plain name (its definitions are evaluated the same way and give None unless they are truth values themselves)"""
+    if isinstance(e, ast.Compare) or (isinstance(e, ast.UnaryOp) and isinstance(e.op, ast.Not)) or (isinstance(e, ast.Constant) and isinstance(e.value, bool)):
+        return True
+    if isinstance(e, ast.Call) and isinstance(e.func, ast.Name) and e.func.id in ("bool", "isinstance") :
+        return True
+    if isinstance(e, ast.BoolOp):
+        return all(_boolish(x) for x in e.values)
+    if isinstance(e, ast.IfExp):
+        return _boolish(e.body) and _boolish(e.orelse)
+    return isinstance(e, ast.Name)
+
+
 def eval3(e: ast.AST, val: Callable[[ast.AST], Optional[bool]]):
     """Kleene evaluation of a boolean expression; `val` maps an atom expression to True/False/None."""
     v = val(e)
@@ -360,6 +374,13 @@ def eval3(e: ast.AST, val: Callable[[ast.AST], Optional[bool]]):
         return eq if isinstance(e.ops[0], (ast.Eq, ast.Is)) else (not eq)
     if isinstance(e, ast.Call) and isinstance(e.func, ast.Name) and e.func.id == "bool" and len(e.args) == 1 and not e.keywords:
         return eval3(e.args[0], val)
+    if isinstance(e, ast.Compare) and len(e.ops) == 1 and isinstance(e.ops[0], (ast.Is, ast.IsNot, ast.Eq, ast.NotEq)) \
+            and _boolish(e.left) and _boolish(e.comparators[0]):
+        # `(a in s) is expected`: two truth values compared
+        x, y = eval3(e.left, val), eval3(e.comparators[0], val)
+        if x is None or y is None:
+            return None
+        return (x == y) if isinstance(e.ops[0], (ast.Is, ast.Eq)) else (x != y)
     if isinstance(e, ast.IfExp):
         t = eval3(e.test, val)
         if t is True:
